@@ -15,6 +15,17 @@
 (* Whether a callback panics is irrelevant for the obligations (of the same and of every other  *)
 (* name): a call that panics is still "the" call.                                               *)
 (*                                                                                              *)
+(* Start-up.  Snapshots may already arrive while the system is starting.  The objects are        *)
+(* reconciled in two groups - the business controllers, and the traffic objects (traffic gates   *)
+(* and pipelines) - and each group *begins* to be reconciled at some moment of the start-up       *)
+(* (CBegin): from the then latest snapshot, i.e. the objects of the group in that snapshot are   *)
+(* initialised; the snapshots taken before are coalesced into it for that group, exactly as if   *)
+(* the configuration source had delivered only the last of them.  A spec whose group has not     *)
+(* begun is, for the obligations, the same as no object (Eff).  From its beginning on a group    *)
+(* takes part in *every* snapshot; the system is up only when both groups have begun.  (This is  *)
+(* the least the text allows: it does not say that an object must be initialised before there   *)
+(* is anything that could initialise it, but it does say "for every sequence of snapshots".)     *)
+(*                                                                                              *)
 (* This module is the contract only: what the text of C20 says, nothing about how the registry, *)
 (* the watchers and the handlers are organised (that is LifecycleImpl).  The obligations of a   *)
 (* snapshot are a *set* `pend` of callback records with a partial order: an instance can be     *)
@@ -36,16 +47,26 @@ ObjSpecs == [k : Kinds, v : Vers]
 Snapshots == [Names -> ObjSpecs \cup {None}]
 
 NoInst == [k |-> "none", v |-> 0, born |-> 0]
-(* an instance is identified by its name and the number of the snapshot that created it *)
+(* an instance is identified by its name and the number of the snapshot that brought its spec *)
 SpecOf(i) == [k |-> i.k, v |-> i.v]
+
+(* the two groups of objects that are reconciled independently of each other *)
+Groups == {"biz", "traf"}
+GroupOf(k) == IF k \in BizKinds THEN "biz" ELSE "traf"
 
 VARIABLES snap,     \* latest snapshot
           clive,    \* contract: name -> live instance [k, v, born] or NoInst
           step,     \* number of snapshots so far
           pend,     \* contract: set of callback obligations not yet discharged
-          done      \* history of discharged callbacks (observation only; never read by actions)
+          done,     \* history of discharged callbacks (observation only; never read by actions)
+          begun,    \* group -> its reconciliation has begun (FALSE only while the system starts)
+          since     \* name -> number of the snapshot that brought the name's present spec
 
-cvars == <<snap, clive, step, pend, done>>
+cvars == <<snap, clive, step, pend, done, begun, since>>
+
+(* a spec as far as the reconciliation that exists is concerned *)
+Eff(s) == IF s # None /\ begun[GroupOf(s.k)] THEN s ELSE None
+Up == \A g \in Groups : begun[g]
 
 (* callback records *)
 InitCB(x, s, b)       == [op |-> "init", name |-> x, k |-> s.k, v |-> s.v, born |-> b,
@@ -88,28 +109,45 @@ Allowed(cb) ==
     /\ cb.op = "close" =>
           ~\E c \in pend : Creates(c) /\ c.name = cb.name /\ c.born = cb.born
 
-CInit ==
+CInitWith(up) ==
     /\ snap = [x \in Names |-> None]
     /\ clive = [x \in Names |-> NoInst]
     /\ step = 0 /\ pend = {} /\ done = {}
+    /\ begun = [g \in Groups |-> up]
+    /\ since = [x \in Names |-> 0]
+CInit   == CInitWith(FALSE)     \* the system is starting
+CInitUp == CInitWith(TRUE)      \* the system is up before the first snapshot arrives
 
 (* a new snapshot arrives (the previous ones need not have been reconciled yet) *)
 CSnapshot(s) ==
+    LET eff == [x \in Names |-> Eff(s[x])] IN
     /\ step' = step + 1
     /\ snap' = s
-    /\ pend' = pend \cup AllObl(clive, s, step + 1)
-    /\ clive' = [x \in Names |-> NextLive(clive[x], s[x], step + 1)]
-    /\ UNCHANGED done
+    /\ since' = [x \in Names |-> IF s[x] # snap[x] THEN step + 1 ELSE since[x]]
+    /\ pend' = pend \cup AllObl(clive, eff, step + 1)
+    /\ clive' = [x \in Names |-> NextLive(clive[x], eff[x], step + 1)]
+    /\ UNCHANGED <<done, begun>>
+
+(* the reconciliation of group g begins, with the latest snapshot: its objects are initialised *)
+BeginNames(g) == {x \in Names : snap[x] # None /\ GroupOf(snap[x].k) = g}
+CBegin(g) ==
+    /\ ~begun[g]
+    /\ begun' = [begun EXCEPT ![g] = TRUE]
+    /\ pend' = pend \cup {InitCB(x, snap[x], since[x]) : x \in BeginNames(g)}
+    /\ clive' = [x \in Names |-> IF x \in BeginNames(g)
+                                  THEN [k |-> snap[x].k, v |-> snap[x].v, born |-> since[x]] ELSE clive[x]]
+    /\ UNCHANGED <<snap, step, done, since>>
 
 CCallback(cb) ==
     /\ Allowed(cb)
     /\ pend' = pend \ {cb}
     /\ done' = done \cup {cb}
-    /\ UNCHANGED <<snap, clive, step>>
+    /\ UNCHANGED <<snap, clive, step, begun, since>>
 
 CNext ==
     \/ (step < MaxSnaps /\ \E s \in Snapshots : CSnapshot(s))
     \/ \E cb \in pend : CCallback(cb)
+    \/ \E g \in Groups : CBegin(g)
 
 CSpec == CInit /\ [][CNext]_cvars
 
@@ -120,9 +158,12 @@ CTypeOK ==
     /\ snap \in Snapshots
     /\ \A x \in Names : clive[x] = NoInst \/ (SpecOf(clive[x]) \in ObjSpecs /\ clive[x].born \in 1..step)
     /\ step \in 0..MaxSnaps
+    /\ begun \in [Groups -> BOOLEAN]
+    /\ \A x \in Names : since[x] \in 0..step /\ (snap[x] # None => since[x] >= 1)
 
-(* "the set of live objects equals the latest applied snapshot" *)
-LiveIsSnapshot == \A x \in Names : SpecOf(clive[x]) = snap[x]
+(* "the set of live objects equals the latest applied snapshot" - of the groups that have begun, which
+   are all groups once the system is up *)
+LiveIsSnapshot == \A x \in Names : SpecOf(clive[x]) = Eff(snap[x])
 
 All == pend \cup done
 Of(x) == {c \in All : c.name = x}             \* the callbacks (open or made) of one name
@@ -161,16 +202,28 @@ NewObl(x) == {c \in pend' \ pend : c.name = x}
 SnapshotClauses ==
     step' = step + 1 =>
       \A x \in Names :
-        LET t == Trans(snap[x], snap'[x]) n == NewObl(x) IN
-        /\ t = "appear"     => \E c \in n : n = {c} /\ c.op = "init" /\ SpecOf(c) = snap'[x] /\ c.born = step'
-        /\ t = "update"     => \E c \in n : n = {c} /\ c.op = "inherit" /\ SpecOf(c) = snap'[x] /\ c.born = step'
+        (* (Eff: while the system starts, the objects of a group that has not begun do not count) *)
+        LET old == Eff(snap[x]) new == Eff(snap'[x]) t == Trans(old, new) n == NewObl(x) IN
+        /\ t = "appear"     => \E c \in n : n = {c} /\ c.op = "init" /\ SpecOf(c) = new /\ c.born = step'
+        /\ t = "update"     => \E c \in n : n = {c} /\ c.op = "inherit" /\ SpecOf(c) = new /\ c.born = step'
                                             /\ c.pborn = clive[x].born /\ c.pk = clive[x].k /\ c.pv = clive[x].v
-        /\ t = "disappear"  => \E c \in n : n = {c} /\ c.op = "close" /\ c.born = clive[x].born /\ SpecOf(c) = snap[x]
+        /\ t = "disappear"  => \E c \in n : n = {c} /\ c.op = "close" /\ c.born = clive[x].born /\ SpecOf(c) = old
         /\ t \in {"unchanged", "absent"} => n = {} /\ clive'[x] = clive[x]
         /\ t = "kindchange" => \E c, d \in n : n = {c, d} /\ c.op = "close" /\ c.born = clive[x].born
-                                            /\ d.op = "init" /\ SpecOf(d) = snap'[x] /\ d.born = step'
-PerSnapshot == [][SnapshotClauses]_cvars
+                                            /\ d.op = "init" /\ SpecOf(d) = new /\ d.born = step'
+(* a group begins: exactly its objects of the latest snapshot are initialised, nothing else happens *)
+BeginClauses ==
+    (\E h \in Groups : ~begun[h] /\ begun'[h]) =>
+      \E g \in Groups :
+        /\ ~begun[g] /\ begun' = [begun EXCEPT ![g] = TRUE] /\ snap' = snap /\ step' = step
+        /\ \A x \in Names :
+             LET n == NewObl(x) IN
+             IF snap[x] # None /\ GroupOf(snap[x].k) = g
+             THEN clive[x] = NoInst /\ \E c \in n : n = {c} /\ c.op = "init" /\ SpecOf(c) = snap[x]
+                                                   /\ SpecOf(clive'[x]) = snap[x] /\ clive'[x].born = c.born
+             ELSE n = {} /\ clive'[x] = clive[x]
+PerSnapshot == [][SnapshotClauses /\ BeginClauses]_cvars
 
 (* obligations only disappear by being discharged, one at a time *)
-Discharge == [][step' = step => \E c \in pend : pend' = pend \ {c} /\ done' = done \cup {c}]_cvars
+Discharge == [][step' = step /\ begun' = begun => \E c \in pend : pend' = pend \ {c} /\ done' = done \cup {c}]_cvars
 =============================================================================
